@@ -164,23 +164,18 @@ func VStackEffect(i Instruction) int {
 }
 
 // vBlockLeaves: the number of operands (0 or 1) the code of a block leaves:
-// one for a block with a trailing expression, unless the block's type is
-// `null` ("generates no value"). Every expression compiled through
-// compileExpr leaves exactly one value (that is the contract of compileExpr);
-// which expressions produce it themselves and which get a null value pushed
-// behind them is the code's `leavesValue`.
+// one unless the block's type is `null` ("generates no value"). Every
+// expression compiled through compileExpr leaves exactly one value (that is
+// the contract of compileExpr). A block, branch or `try` whose type is `never`
+// does not complete, so the depth behind it is the one its consumer expects by
+// convention; this is the one place where the contracts rely on the analyzer's
+// typing (a block without trailing expression whose type is not null is of
+// type never; the branches of `if`/`try` have the type of the whole or never).
 func vBlockLeaves(b ast.AnalyzedBlock) int {
-	return b2i(b.Expression != nil && b.ResultType.Kind() != ast.NullTypeKind)
+	return b2i(b.ResultType.Kind() != ast.NullTypeKind)
 }
 
 /*@ assume-pure analyzer/ast.AnalyzedExpression.Type nonnil @*/
-
-/*@ func blockLeavesValue
-    serves C01, C02, C09
-    inline
-    assume-safety
-    ensures @as-specified result == (vBlockLeaves(node) == 1)
-@*/
 
 /*@ func leavesValue
     serves C01, C02, C09
@@ -375,9 +370,12 @@ func b2i(b bool) int {
 @*/
 
 /*@ func (self *Compiler) compileIfExpr
-    assumes @branches-agree (node.ElseBlock != nil ==> vBlockLeaves(*node.ElseBlock) == vBlockLeaves(node.ThenBlock)) && (node.ElseBlock == nil ==> vBlockLeaves(node.ThenBlock) == 0)
+    assumes @branches-have-the-type-of-the-whole-or-diverge (node.ThenBlock.ResultType.Kind() == ast.NeverTypeKind || vBlockLeaves(node.ThenBlock) == b2i(node.ResultType.Kind() != ast.NullTypeKind)) && (node.ElseBlock != nil ==> node.ElseBlock.ResultType.Kind() == ast.NeverTypeKind || vBlockLeaves(*node.ElseBlock) == b2i(node.ResultType.Kind() != ast.NullTypeKind)) && (node.ElseBlock == nil ==> node.ResultType.Kind() == ast.NullTypeKind)
     ghostat @else-entry after self.insert(newOneStringInstruction(Opcode_Label, else_label), node.Range) :: depth = old(ghost(depth))
-    ensures @stack-effect ghost(depth) == old(ghost(depth)) + vBlockLeaves(node.ThenBlock)
+    assert @then-branch-joins-with-the-value-count before self.insert(newOneStringInstruction(Opcode_Jump, after_label), node.Range) :: node.ThenBlock.ResultType.Kind() == ast.NeverTypeKind || ghost(depth) == old(ghost(depth)) + b2i(node.ResultType.Kind() != ast.NullTypeKind)
+    assert @else-branch-joins-with-the-value-count before self.insert(newOneStringInstruction(Opcode_Label, after_label), node.Range) :: node.ElseBlock == nil || node.ElseBlock.ResultType.Kind() == ast.NeverTypeKind || ghost(depth) == old(ghost(depth)) + b2i(node.ResultType.Kind() != ast.NullTypeKind)
+    ghostat @join after self.insert(newOneStringInstruction(Opcode_Label, after_label), node.Range) :: depth = old(ghost(depth)) + b2i(node.ResultType.Kind() != ast.NullTypeKind)
+    ensures @stack-effect ghost(depth) == old(ghost(depth)) + b2i(node.ResultType.Kind() != ast.NullTypeKind)
     ensures @same-function self.aligned() && self.currFn == old(self.currFn) && self.currModule == old(self.currModule) && samemap(self.modules, old(self.modules)) && self.CurrFn() == old(self.CurrFn())
 @*/
 
@@ -475,7 +473,10 @@ func vInfixShape(op pAst.InfixOperator) int {
     splitcond at 16 :: node.(ast.AnalyzedAssignExpression).Lhs.Kind() == ast.IdentExpressionKind
     splitcond at 16 :: node.(ast.AnalyzedAssignExpression).Operator != pAst.StdAssignOperatorKind
     assumes @well-formed-tree node != nil && node.Kind() != ast.UnknownExpressionKind
-    assumes @branches-agree-try node.Kind() == ast.TryExpressionKind ==> vBlockLeaves(node.(ast.AnalyzedTryExpression).CatchBlock) == vBlockLeaves(node.(ast.AnalyzedTryExpression).TryBlock)
+    assumes @try-and-catch-have-the-type-of-the-whole-or-diverge node.Kind() == ast.TryExpressionKind ==> (node.(ast.AnalyzedTryExpression).TryBlock.ResultType.Kind() == ast.NeverTypeKind || vBlockLeaves(node.(ast.AnalyzedTryExpression).TryBlock) == b2i(node.(ast.AnalyzedTryExpression).ResultType.Kind() != ast.NullTypeKind)) && (node.(ast.AnalyzedTryExpression).CatchBlock.ResultType.Kind() == ast.NeverTypeKind || vBlockLeaves(node.(ast.AnalyzedTryExpression).CatchBlock) == b2i(node.(ast.AnalyzedTryExpression).ResultType.Kind() != ast.NullTypeKind))
+    assert @try-block-joins-with-the-value-count before self.insert(newOneStringInstruction(Opcode_Jump, afterCatchLabel), node.Range) :: node.TryBlock.ResultType.Kind() == ast.NeverTypeKind || ghost(depth) == old(ghost(depth)) + b2i(node.ResultType.Kind() != ast.NullTypeKind)
+    assert @catch-block-joins-with-the-value-count before self.insert(newOneStringInstruction(Opcode_Label, afterCatchLabel), node.Range) :: node.CatchBlock.ResultType.Kind() == ast.NeverTypeKind || ghost(depth) == old(ghost(depth)) + b2i(node.ResultType.Kind() != ast.NullTypeKind)
+    ghostat @try-join after self.insert(newOneStringInstruction(Opcode_Label, afterCatchLabel), node.Range) :: depth = old(ghost(depth)) + b2i(node.ResultType.Kind() != ast.NullTypeKind)
     assume @well-formed-assignment before-each self.arithmeticHelper(node.Operator.IntoInfixOperator(), node.Range) :: node.Operator <= pAst.BitXorAssignOperatorKind
     assume @literal-is-another-function after self.currFn = oldCurrFn :: self.aligned() && self.CurrFn() == old(self.CurrFn()) && self.codeLen() == old(self.codeLen())
     ghostat @list-push-consumes-element before-each self.insert(newOneStringInstruction(Opcode_HostCall, LIST_PUSH), node.Range) :: depth = ghost(depth) - 2
@@ -511,6 +512,7 @@ func vInfixShape(op pAst.InfixOperator) int {
 @*/
 
 /*@ func (self *Compiler) compileBlock
+    ghostat @end-of-a-diverging-block-is-not-reached after if node.Expression != nil { :: depth = ghost(depth) + b2i(node.Expression == nil && node.ResultType.Kind() != ast.NullTypeKind)
     ensures @stack-effect ghost(depth) == old(ghost(depth)) + vBlockLeaves(node)
     loop 1 invariant ghost(depth) == entry(ghost(depth))
     serves C01, C11, C15, C02, C09
